@@ -625,7 +625,15 @@ def run(ctx, big=False):
         'abort_snapshots_compared': stats['abort_snapshots_compared'], 'tolerated_anomalies_seen': stats['anomalies'],
         'step_budget_overflows': stats['overflow'], 'violations_by_sig': stats['known_by_sig'], 'trace_records': len(TRACE_RECORDS)})
     res.extra_private = {'trace_records': TRACE_RECORDS}
+    if not ctx.search_mode:
+        correspondence(ctx, res, TRACE_RECORDS)
     return res
+
+
+def correspondence(ctx, res, trace_records):
+    """HOOK for the model correspondence (integrator); records as in props.c05.trace_record, with block markers in
+    the programs (begin_block / end_block / raise_in_block records carry their own events: BEGIN, COMMIT/ROLLBACK)."""
+    return
 
 
 def search(ctx, broken):
